@@ -18,6 +18,7 @@ func gen(t *rapid.T) peng.Case {
 		c.Threads = 2
 	}
 	c.GoMaxProcs = rapid.SampledFrom([]int{0, 0, 2, 4}).Draw(t, "gomaxprocs")
+	c.Jitter = peng.GenJitter(t)
 	return c
 }
 
